@@ -3,6 +3,7 @@ import QP.Proofs.PTArith
 import QP.Proofs.PTTop
 import QP.Proofs.PTTopW
 import QP.Proofs.PTTop2W
+import QP.Proofs.PTTop3W
 /-!
 # C04 — durations are exact and the template, the program and its pieces agree on them
 
@@ -60,21 +61,21 @@ theorem empty_is_zero (n : Nat) (ms : List Window) : (Loop.mk n none ms []).dura
   simp [duration_none, Loop.durationList]
 
 /-- **durations agree (partial)**: for stage-1 templates the program lasts exactly as long as the denoted pulse -/
-theorem duration_agree_partial {pt : PT} (hs : Stage2 pt) (params : List (String × Rat))
+theorem duration_agree_partial {pt : PT} (hs : Stage3R pt) (params : List (String × Rat))
     (mm : Option (List (MName × Option MName))) (cm : List (Chan × Option Chan)) (prog : Loop) (P : Pulse)
     (hprog : createProgram pt params mm cm [] = .ok (some prog))
-    (hden : denoteTop pt params mm cm = .ok P) (hpos : prog.allPos) :
+    (hden : denoteTop pt params mm cm = .ok P) :
     prog.duration = P.dur ∧ prog.piecesSum = P.dur ∧ sumList (prog.play.map Wf.duration) = P.dur := by
-  have h := (createProgram_rel_basic hs.basic params mm cm prog P hprog hden hpos).1
+  have h := (createProgram_relWT_basic hs.basic params mm cm (some prog) P hprog hden).1
   exact ⟨h, by rw [← duration_eq_pieces, h], by rw [← duration_eq_play, h]⟩
 
 /-- **durations agree incl. time reversal (partial)**: stage-1 subset extended by `TimeReversalPT`, no positivity
 assumption; an empty program corresponds to a denoted duration of zero. -/
-theorem duration_agree_reversal_partial {pt : PT} (hs : Stage2R pt) (params : List (String × Rat))
+theorem duration_agree_reversal_partial {pt : PT} (hs : Stage3R pt) (params : List (String × Rat))
     (mm : Option (List (MName × Option MName))) (cm : List (Chan × Option Chan)) (prog? : Option Loop) (P : Pulse)
     (hprog : createProgram pt params mm cm [] = .ok prog?) (hden : denoteTop pt params mm cm = .ok P) :
     (match prog? with | some prog => prog.duration | none => 0) = P.dur := by
-  have := createProgram_relW_basic hs.basic params mm cm prog? P hprog hden
+  have := createProgram_relWT_basic hs.basic params mm cm prog? P hprog hden
   cases prog? with
   | some prog => exact this.1
   | none => exact this.1.symm
